@@ -939,11 +939,18 @@ public:
     for (size_t t : indices) {
       std::multiset< size_t > wantp(parents[t].begin(), parents[t].end());
       if (wantp != code_parents[t]) {
+        std::string extra, missing;
+        for (size_t q : code_parents[t])
+          if (!wantp.count(q) || code_parents[t].count(q) > wantp.count(q))
+            extra += (extra.empty() ? "" : ", ") + task_role[q].str();
+        for (size_t q : wantp)
+          if (!code_parents[t].count(q) || wantp.count(q) > code_parents[t].count(q))
+            missing += (missing.empty() ? "" : ", ") + task_role[q].str();
         fail("task-table",
              sfmt("%s is released by %zu task edges in the code's tables, the "
-                  "scheme requires %zu",
+                  "scheme requires %zu; not in the scheme: [%s]; missing: [%s]",
                   task_role[t].str().c_str(), code_parents[t].size(),
-                  wantp.size()));
+                  wantp.size(), extra.c_str(), missing.c_str()));
         return;
       }
       const size_t counter = (*tasks)[t].get_number_of_unfinished_parents();
